@@ -4,6 +4,7 @@ import (
 	"fmt"
 	"go/constant"
 	"go/token"
+	"go/types"
 	"strings"
 
 	"golang.org/x/tools/go/ssa"
@@ -462,6 +463,44 @@ func init() {
 					}
 				}
 			})
+			// the bundler's estimate is the marshalled size: header + payload rounded up to 4, for both framings
+			csp := c.Fn("chunkPayloadData.chunkSizeInPacket")
+			ud := c.field("chunkPayloadData", "userData")
+			idf := c.field("chunkPayloadData", "iData")
+			typf := c.field("chunkHeader", "typ")
+			for _, inter := range []bool{false, true} {
+				hdr := int64(16)
+				if inter {
+					hdr = 20
+				}
+				for n := int64(1); n <= 9; n++ {
+					key := fmt.Sprintf("size-in-packet:len=%d,idata=%v", n, inter)
+					outs, und := c.P.PEval(csp, PEConfig{
+						Fields: map[*types.Var]constant.Value{idf: constant.MakeBool(inter), typf: constant.MakeInt64(0)},
+						BindVal: func(v ssa.Value) (constant.Value, bool) {
+							if call, ok := v.(*ssa.Call); ok {
+								if b, isB := call.Call.Value.(*ssa.Builtin); isB && b.Name() == "len" && len(call.Call.Args) == 1 && IsLoadOf(ud)(call.Call.Args[0]) {
+									return constant.MakeInt64(n), true
+								}
+							}
+							return nil, false
+						}})
+					if und != "" || len(outs) == 0 {
+						c.Fail(key, c.P.Pos(csp.Pos()), "UNDECIDED: "+und)
+						continue
+					}
+					exp := (hdr + n + 3) / 4 * 4
+					bad := ""
+					for _, o := range outs {
+						if len(o.Ret) != 1 || o.Ret[0] == nil {
+							bad = "size does not fold to a constant"
+						} else if got, _ := constant.Int64Val(o.Ret[0]); got != exp {
+							bad = fmt.Sprintf("estimate %d, marshalled size %d", got, exp)
+						}
+					}
+					c.Check(bad == "", key, c.P.Pos(csp.Pos()), fmt.Sprintf("= %d (header %d + payload, padded to 4)", exp, hdr), "the bundler's per-chunk size differs from what packet.marshal emits ("+bad+"): bundled packets exceed the MTU")
+				}
+			}
 			c.Check(consts[16] && consts[20] && len(consts) == 2, "chunkSize-headers", c.P.Pos(cs.Pos()), "chunkSize adds 16 (DATA) / 20 (I-DATA) header bytes", fmt.Sprintf("chunkSize header constants changed: %v", consts))
 		}})
 }
@@ -533,6 +572,36 @@ func init() {
 				}
 				for _, a := range c.storesIn(fn, ss) {
 					check(fn, "ssthresh", a.Instr, a.Val)
+				}
+			}
+			// the admission tests themselves: an unsigned difference compared against what is
+			// in flight wraps to ~4 GiB when the window is smaller than one chunk
+			seenB := map[*ssa.BinOp]bool{}
+			for _, root := range []string{"Association.getDataPacketsToRetransmit", "Association.popPendingDataChunksToSend", "Association.gatherOutboundFastRetransmissionPackets"} {
+				for _, fn := range c.P.Region(c.Fn(root)) {
+					forEachInstr(fn, func(in ssa.Instruction) {
+						cmp, ok := in.(*ssa.BinOp)
+						if !ok {
+							return
+						}
+						switch cmp.Op {
+						case token.LSS, token.LEQ, token.GTR, token.GEQ:
+						default:
+							return
+						}
+						var found []*ssa.BinOp
+						subs(cmp.X, 0, &found)
+						subs(cmp.Y, 0, &found)
+						for _, b := range found {
+							if seenB[b] {
+								continue
+							}
+							seenB[b] = true
+							okG := DominatedByExt(b, CmpCond(token.LEQ, same(b.Y), same(b.X))) || DominatedByExt(b, CmpCond(token.LSS, same(b.Y), same(b.X)))
+							c.Check(okG, ks.key("nowrap:admission@"+c.P.FuncName(fn)), c.Pos(b), "minuend ≥ subtrahend holds on every path to the subtraction",
+								fmt.Sprintf("unsigned subtraction %s - %s decides an admission test and is not guarded against wrapping: with a window smaller than one chunk the difference is ~4 GiB and every marked chunk is sent in one burst", shortValue(c.P, b.X), shortValue(c.P, b.Y)))
+						}
+					})
 				}
 			}
 		}})
